@@ -98,6 +98,18 @@ def replay_formula(case):
         bad.append(("Substance.from_formula.mass", m, exd))
     if not _mass_ok(m2, e["massnum"], e["massden"]):
         bad.append(("mass_from_composition", m2, exd))
+    # molar mass with units: the same number in g/mol, in default units and in a scaled unit (kg/mol)
+    try:
+        from chempy.units import default_units as u, to_unitless
+        mm = s.molar_mass()
+        v1 = float(to_unitless(mm, u.g / u.mol))
+        v2 = float(to_unitless(s.molar_mass(u), u.kg / u.mol)) * 1000
+        if not _mass_ok(v1, e["massnum"], e["massden"]) or not _mass_ok(v2, e["massnum"], e["massden"]):
+            bad.append(("Substance.molar_mass", [v1, v2], exd))
+        if abs(s.mass - m) > 0:      # history: reading the mass twice gives the same number
+            bad.append(("Substance.mass[second read]", s.mass, m))
+    except Exception as ex:
+        bad.append(("Substance.molar_mass", type(ex).__name__, exd))
     return bad
 
 
